@@ -64,6 +64,7 @@ fn main() {
             "C14" => props::c14::replay(case),
             "C15" => props::c15::replay(case),
             "C16" => props::c16::replay(case),
+            "C17" => props::c17::replay(case),
             "C18" => props::c18::replay(case),
             "C20" => props::c20::replay(case),
             _ => {
@@ -90,6 +91,7 @@ fn main() {
         "C14" => props::c14::run(tier),
         "C15" => props::c15::run(tier),
         "C16" => props::c16::run(tier),
+        "C17" => props::c17::run(tier),
         "C18" => props::c18::run(tier),
         "C20" => props::c20::run(tier),
         _ => {
